@@ -35,8 +35,9 @@ def parse_case(case):
 
 def monitor(case, tr, raw):
     """property oracle on an implementation trace (None = fine).  Uses only the
-    add_and_fetch events on in_count (an item is announced) and the return
-    events of push / get_work."""
+    add_and_fetch events on in_count (an item is announced), which push call an
+    access belongs to (the push has started) and the return events of push /
+    get_work."""
     if tr is None:
         return "implementation produced no trace: %s" % (raw or "")[:80]
     progs = parse_case(case)
@@ -46,11 +47,14 @@ def monitor(case, tr, raw):
     nann = [0] * nthreads         # add_and_fetch executed
     worker = [False] * nthreads   # between START_WORKING and EMPTY
     announced, handed = [], set()
+    started = set()               # items whose push call has performed an access
     stuck = False
     for (t, loc, kind, val) in tr:
         if kind == 919:
             stuck = True
             continue
+        if kind != 909 and not worker[t] and npush[t] < len(progs[t]):
+            started.add(progs[t][npush[t]])
         if kind // 10 == 5 and loc == LOC_IN:      # fetch_add on in_count
             if nann[t] >= len(progs[t]):
                 return "thread %d announced more items than it pushes" % t
@@ -81,7 +85,7 @@ def monitor(case, tr, raw):
                     return "item %d handed out twice" % val
                 if val not in allitems:
                     return "item %d handed out but never pushed" % val
-                if val not in announced:
+                if val not in started:
                     return "item %d handed out before its push started" % val
                 handed.add(val)
     if stuck:
